@@ -54,6 +54,7 @@ PreludeLines == <<
   "defvar vInt = 1;",
   "defvar vStr = \"dBase\";",
   "defvar vBit = true;",
+  "defvar vBits = {0, 1, 0, 1};",
   "defvar vInts = [1, 0];",
   "defvar vStrs = [\"a\", \"b\"];",
   "defvar vDag = (op 1, 0);",
@@ -107,11 +108,16 @@ Literals == {
   V("lit", T("string"), "\"a\" # \"b\"") }
 
 DefNames == {V("def", DefT(d), d) : d \in Defs}
-VarNames == { V("var", T("int"), "vInt"), V("var", T("string"), "vStr"), V("var", T("bit"), "vBit"),
+VarNames == { V("var", Bits(4), "vBits"), V("var", T("int"), "vInt"), V("var", T("string"), "vStr"), V("var", T("bit"), "vBit"),
               V("var", ListT(T("int")), "vInts"), V("var", ListT(T("string")), "vStrs"), V("var", T("dag"), "vDag") }
 FieldAcc == UNION {{V("field", f[2], d \o "." \o f[1]) : f \in FieldsOf(DefAnc(d))} : d \in Defs}
 DefsetNames == {V("defset", ListT(Cls("Base")), "dsBases")}
-Atoms == Literals \cup DefNames \cup VarNames \cup FieldAcc \cup DefsetNames
+\* value suffixes: element and slice of a list, bit selection from bits<n> and from int
+Suffixed == { V("suffix", T("int"), "vInts[0]"), V("suffix", ListT(T("int")), "vInts[0...1]"), V("suffix", ListT(T("int")), "vInts[1, 0]"),
+              V("suffix", T("string"), "vStrs[1]"), V("suffix", ListT(T("string")), "vStrs[0...1]"),
+              V("suffix", Bits(1), "vBits{0}"), V("suffix", Bits(2), "vBits{1...0}"), V("suffix", Bits(2), "vBits{3, 0}"),
+              V("suffix", Bits(1), "vInt{0}"), V("suffix", Bits(2), "vInt{1-0}"), V("suffix", T("int"), "dOther.o[0]") }
+Atoms == Literals \cup DefNames \cup VarNames \cup FieldAcc \cup DefsetNames \cup Suffixed
 
 \* list literals: one or two atoms; the literal's type is the set of its element types
 ListElems == {v \in Atoms : v.k \in {"lit", "def", "var"} /\ v.ty[1] \notin {"uninit", "anylist", "dag", "code"} /\ v.txt \notin {"false", "0", "0b1", "0x1", "\"a\" # \"b\""}}
@@ -315,7 +321,7 @@ Decide(slot, t, v) == IF slot.s = "foreach-list" THEN (IF v.ty[1] \in {"list", "
 
 \* which triples are emitted: every atom and class value everywhere; compound values in the two field slots
 Triples == {<<sl, t, v>> \in Slots \X DeclTypes \X Values :
-               /\ (v.k \in {"lit", "def", "var", "field", "classval"} \/ sl.s \in {"field-class", "arg-parent"})
+               /\ (v.k \in {"lit", "def", "var", "field", "classval", "defset", "suffix"} \/ sl.s \in {"field-class", "arg-parent"})
                /\ (sl.s = "foreach-list" => t = T("int")) }
 
 \* ---------------------------------------------------------------------------------------------
